@@ -646,6 +646,22 @@ func WellformedType(ctx map[ast.Variable]ast.BaseTerm, expr ast.BaseTerm) error 
 					return fmt.Errorf("in a struct type expression %v : %w", expr, err)
 				}
 			}
+			optionalArgs, err := StructTypeOptionaArgs(expr)
+			if err != nil {
+				return err
+			}
+			for _, opt := range optionalArgs {
+				optArgs := opt.(ast.ApplyFn).Args
+				if len(optArgs) != 2 {
+					return fmt.Errorf("in a struct type expression %v : optional field %v must have a name and a type", expr, opt)
+				}
+				if c, ok := optArgs[0].(ast.Constant); !ok || c.Type != ast.NameType {
+					return fmt.Errorf("in a struct type expression %v : optional field %v must start with a name constant", expr, opt)
+				}
+				if err := WellformedType(ctx, optArgs[1]); err != nil {
+					return fmt.Errorf("in a struct type expression %v : %w", expr, err)
+				}
+			}
 			return nil
 		}
 		if fn == TaggedUnionType {
@@ -851,6 +867,9 @@ func TypeConforms(ctx map[ast.Variable]ast.BaseTerm, left ast.BaseTerm, right as
 			return false
 		}
 		leftDomain, rightDomain := leftApply.Args[1:], rightApply.Args[1:]
+		if len(leftDomain) != len(rightDomain) {
+			return false // Functions of different arity are unrelated.
+		}
 
 		for i, leftArg := range leftDomain {
 			if !TypeConforms(ctx, rightDomain[i], leftArg) {
@@ -946,6 +965,9 @@ func TypeConforms(ctx map[ast.Variable]ast.BaseTerm, left ast.BaseTerm, right as
 	}
 	if leftTuple, ok := left.(ast.ApplyFn); ok && leftTuple.Function.Symbol == TupleType.Symbol {
 		if rightTuple, ok := right.(ast.ApplyFn); ok && rightTuple.Function.Symbol == TupleType.Symbol {
+			if len(leftTuple.Args) != len(rightTuple.Args) {
+				return false // Tuples of different width are unrelated.
+			}
 			for i, leftArg := range leftTuple.Args {
 				if !TypeConforms(ctx, leftArg, rightTuple.Args[i]) {
 					return false
